@@ -177,6 +177,7 @@ WgCounts == wg = Cardinality(LiveFiles)                         \* the WaitGroup
 Conservation == \A f \in Files : InHand(f) = IF f \in LiveFiles THEN 1 ELSE 0      \* a file on its way is in exactly one place
 OnceEach == \A j, k \in 1 .. Len(out) : out[j].f = out[k].f => j = k
 PrintsOwn == \A k \in 1 .. Len(out) : out[k].shows = {out[k].f}  \* every output shows its own file's data and nothing else
+PrintsOwnCex == PrintsOwn \/ (PrintT(ToJson([cex |-> sched])) /\ FALSE)      \* the same, printing the behaviour that breaks it
 Ownership == \A f, g \in LiveFiles : f # g => own[f] \cap own[g] = {}
 ExitComplete == wk.pc \in {"close", "exit"} => Printed = Files  \* main returns only after every file was written
 NoSendOnClosed == closed => /\ wk.pc = "exit"
